@@ -4,6 +4,7 @@ R1 no silent narrowing of the strto* result      R2 a key without value is refus
 R3 unsigned getters refuse a minus sign          R4 base 0, end-pointer and ERANGE tested (integer getters)
 R5 booleans are recognised by string equality with exactly 1/0 yes/no true/false (+ empty = false)
 R6 float uses strtof, double strtod"""
+import re
 from sa.ast import render
 from sa.facts import Inconclusive
 from sa import query
@@ -367,7 +368,10 @@ def r5_bool(prog, ctx):
                 ctx.fail("R5", "%s word set" % fname, f.where, "does not accept %s" % sorted(missing), key="bool-missing:%s" % fname)
         else:
             ctx.ok("R5", "%s word set" % fname, f.where, "true: %s, false: %s" % (sorted(t_full), sorted(fl_full)))
-        if what == "getter" and "" not in fl_full:
+        if what == "getter" and "" not in fl_full and missing and not extra and ((not t_full and not fl_full) or unknown or
+                [c for c in f.calls(conv.STRCMPS) if not any(x.string_value() is not None for x in c.call_args())]):
+            ctx.inconclusive("R5", "%s: empty value is false" % fname, f.where, "comparison idiom not recognised")
+        elif what == "getter" and "" not in fl_full:
             ctx.fail("R5", "%s: empty value is false" % fname, f.where, "no empty-text test leading to *result = false", key="bool-empty")
         # case-insensitivity: compared text is lower-cased or compared with strcasecmp
         compared = set(x for s in rec.values() for (L, how, x) in s if how in ("strcmp", "hash"))
@@ -433,7 +437,10 @@ def r5_bool(prog, ctx):
         for c in f.calls(("strncmp", "strncasecmp", "memcmp")):
             lits9 = [x.string_value() for x in c.call_args() if x.string_value() is not None]
             nlim = c.call_args()[2].const_value() if len(c.call_args()) > 2 else None
-            if lits9 and (nlim is None or nlim <= len(lits9[0])):
+            if lits9 and nlim is None and len(c.call_args()) > 2 and not re.search(r"strlen\(\s*\"", render(c.call_args()[2])):
+                ctx.inconclusive("R5", "%s compares the whole text" % fname, c.where,
+                                 "`%s`: the number of characters compared is not a constant" % render(c)[:60])
+            elif lits9 and (nlim is None or nlim <= len(lits9[0])):
                 ctx.fail("R5", "%s compares the whole text" % fname, c.where,
                          "`%s` compares at most %s characters: every text that begins like \"%s\" ('yesterday', 'nonsense', '10') is taken for the word" % (
                              render(c)[:60], nlim if nlim is not None else "n", lits9[0]), key="bool-prefix:%s" % fname)
@@ -569,7 +576,19 @@ def r7_def_wrappers(prog, ctx):
                 pn = [q["name"] for q in f.params]
                 okp, cutp = cfg.all_paths_cut(cfg.block_of(d.node), lambda lit, b, i: lit is not None and lit.kind == "truth" and not lit.pol and lit.atom in pn)
                 return bool(okp and cutp)
-            return bool(ds) and all(d.node is up or refusal(d) or (d.rhs is not None and d.node is not None and from_getter(d.rhs, d.node, depth + 1)) for d in ds) \
+            def same_code(d):
+                # `return ECONF_NOKEY;` where the getter's verdict is known to BE that code (`if (error != ECONF_NOKEY) return error; ... return ECONF_NOKEY;`)
+                if d.rhs is None or d.node is None or d.rhs.const_value() is None:
+                    return False
+                cv = d.rhs.const_value()
+                for q in cfg.required_literals(cfg.block_of(d.node), expand_locals=False):
+                    if q is None or q.kind != "eq" or not q.pol:
+                        continue
+                    for x9, y9 in ((q.lhs, q.rhs), (q.rhs, q.lhs)):
+                        if y9.const_value() == cv and x9.strip().k == "DeclRefExpr" and from_getter(x9, d.node, depth + 1):
+                            return True
+                return False
+            return bool(ds) and all(d.node is up or refusal(d) or same_code(d) or (d.rhs is not None and d.node is not None and from_getter(d.rhs, d.node, depth + 1)) for d in ds) \
                 and any(not refusal(d) for d in ds)
         for r in f.returns():
             if cb not in cfg.reachable(cfg.block_of(r), forward=False):
